@@ -92,7 +92,49 @@ func NewCmdLine(ctx *Context, cmdType CmdLineType) *CmdLine {
 		a.evasionPatterns[suffixExpandedCommand] = ctx.rootContext.Configuration().Patterns.AntiEvasionNoSpaceSuffix.Windows
 	}
 
+	// The patterns are inserted between the characters of a command. A pattern with an alternation
+	// at its top level (e.g., `;|,`) must be inserted as a unit, otherwise the alternation would
+	// split the whole command.
+	for name, pattern := range a.evasionPatterns {
+		if hasTopLevelAlternation(pattern) {
+			a.evasionPatterns[name] = "(?:" + pattern + ")"
+		}
+	}
+
 	return a
+}
+
+// hasTopLevelAlternation reports whether a pattern contains a `|` outside of
+// groups, character classes and escape sequences.
+func hasTopLevelAlternation(pattern string) bool {
+	depth := 0
+	inClass := false
+	for i := 0; i < len(pattern); i++ {
+		switch char := pattern[i]; {
+		case char == '\\':
+			i++
+		case inClass:
+			if char == ']' {
+				inClass = false
+			}
+		case char == '[':
+			inClass = true
+			// a `]` right after the opening bracket (or after `[^`) is a member of the class
+			if i+1 < len(pattern) && pattern[i+1] == '^' {
+				i++
+			}
+			if i+1 < len(pattern) && pattern[i+1] == ']' {
+				i++
+			}
+		case char == '(':
+			depth++
+		case char == ')':
+			depth--
+		case char == '|' && depth == 0:
+			return true
+		}
+	}
+	return false
 }
 
 // ProcessLine applies the processors logic to a single line
